@@ -41,7 +41,7 @@ def shards(tier, seed):
 
 def universe(seed, uid):
     rng = core.rng_for(seed, PROP, 'uni%d' % uid)
-    o = gen.Opts(max_types=4, namespaces=3, choice_groups=True, defaults=True, sub_names=True)
+    o = gen.Opts(max_types=4, namespaces=3, choice_groups=True, defaults=True, sub_names=True, seq_min=True)
     return gen.rand_universe(rng, o, uid=uid)
 
 
@@ -308,6 +308,9 @@ def run_inheritance(R, spec):
         R.violation('the published schema does not compile: %s' % getattr(C, 'schema_error', '?')[:300], repro, mech='schema_compile:inheritance_universe')
         return
     R.count('schemas_compiled')
+    # what spyne writes for objects of a three-level class tree (members at every level) is valid against the schema it publishes
+    for rep in range(2 if spec['tier'] == 'quick' else 8):
+        emitted(R, C, ir, kind, rng, spec['tier'], repro)
     for rep in range(1 if spec['tier'] == 'quick' else 4):
         verdict_pairs(R, C, ir, kind, rng, spec['tier'], repro, exhaustive=True)
     R.count('inheritance_universe_runs')
